@@ -151,6 +151,17 @@ GETTER = {
 SPEC_ALIAS = {"RFVoltage": "AcceleratingVoltage", "SyncFreq": "SynchrotronFrequency", "steps": "StepsPerTs"}
 
 
+def alias_names():
+    """{current name: legacy name}: what the property calls legacy names (SPEC_ALIAS) plus whatever the table declares -
+    the generators use legacy names in files even when the table read from the source no longer knows them"""
+    tab = info()["table"]
+    res = {cn: a for a, cn in SPEC_ALIAS.items() if cn in tab}
+    for o in tab.values():
+        if o["kind"] == "KAlias" and o.get("canon") in tab:
+            res.setdefault(o["canon"], o["name"])
+    return res
+
+
 def label_of(o):
     """harness label through which the value of option o is observed"""
     if o["kind"] == "KCanon":
@@ -563,7 +574,7 @@ def gen_case(ctx, cid, kind):
     tab = inf["table"]
     c = OptCase(cid)
     canon = [o for o in tab.values() if o["kind"] == "KCanon" and o["name"] != inf["cfgopt"]]
-    aliases = {o["canon"]: o for o in tab.values() if o["kind"] == "KAlias"}
+    aliases = alias_names()
     ignored = [o for o in tab.values() if o["kind"] == "KIgnored"]
     cli_names = [o["name"] for o in tab.values() if o["cli"]]
     k = rng.choice([0, 1, 2, 3, 5, 8, 14, 30]) if kind != "short" else rng.choice([0, 1, 2])
@@ -602,7 +613,7 @@ def gen_case(ctx, cid, kind):
         if where in ("cfg", "both"):
             nm = o["name"]
             if o["name"] in aliases and (kind == "alias" or rng.random() < 0.3):
-                nm = aliases[o["name"]]["name"]
+                nm = aliases[o["name"]]
                 c.tags.add("alias")
                 if where == "both":
                     c.tags.add("alias-in-cfg-canonical-on-cli")
@@ -707,7 +718,7 @@ def gen_alias2(ctx, cid, scenario=None):
     inf = info()
     tab = inf["table"]
     c = OptCase(cid)
-    aliases = {o["canon"]: o for o in tab.values() if o["kind"] == "KAlias"}
+    aliases = {cn: dict(name=a) for cn, a in alias_names().items()}
     canon = [o for o in tab.values() if o["kind"] == "KCanon" and o["name"] != inf["cfgopt"] and o["name"] not in aliases
              and o["ty"] != "TFlag"]
     items = []
@@ -940,15 +951,18 @@ def spec_expect(c):
     both = False
     for n, ts in (items or []):
         o = tab.get(n)
-        if o is None or not o["file"]:
+        if n in SPEC_ALIAS and SPEC_ALIAS[n] in tab:
+            key, ty = SPEC_ALIAS[n], tab[SPEC_ALIAS[n]]["ty"]      # a legacy name of the property, whatever the table says
+        elif o is None or not o["file"]:
             return ("fail", "unknown-cfg")
-        key = SPEC_ALIAS.get(n, o["canon"]) if o["kind"] == "KAlias" else n
+        else:
+            key, ty = (o["canon"] if o["kind"] == "KAlias" else n), o["ty"]
         if n in cli:
             continue            # same name on the command line: the value is never converted nor used (explored boundary, docs/built/C20.md)
-        if any(spec_malformed(o["ty"], t) for t in ts):
-            return ("fail", "neg-unsigned" if all(value(o["ty"], t) is not None for t in ts) else "bad-cfg")
+        if any(spec_malformed(ty, t) for t in ts):
+            return ("fail", "neg-unsigned" if all(value(ty, t) is not None for t in ts) else "bad-cfg")
         seen = names.setdefault(key, [])
-        if seen and o["ty"] != "TVecFloat":
+        if seen and ty != "TVecFloat":
             if n in seen:
                 return ("fail", "repeat-cfg")
             both = True             # legacy and current name in one file: the statement does not say (the model: the
